@@ -19,7 +19,7 @@ func init() {
 		Doc:  "Result typestate, no in-module error dropped, target dominated by nil branches, error identity taint, last-resort guard",
 		Run:  runErrflow,
 		Floor: map[string]int{
-			"ERRFLOW-E1": 3, "ERRFLOW-E2": 8, "ERRFLOW-E3": 3, "ERRFLOW-E4": 5, "ERRFLOW-E5": 3, "ERRFLOW-E6": 3,
+			"ERRFLOW-E1": 3, "ERRFLOW-E2": 8, "ERRFLOW-E3": 3, "ERRFLOW-E4": 5, "ERRFLOW-E5": 3, "ERRFLOW-E6": 2,
 		},
 	})
 }
@@ -276,14 +276,16 @@ func runErrflow(c *Ctx) {
 		if execCall == nil {
 			c.R.Undecided("ERRFLOW-E3", "Call|executor", "Call", p.Pos(call.Pos()), "Call does not call the executor directly")
 		} else {
-			lits := core.Lits(core.Guards(execCall.Block()))
+			// literals known where the executor is called, including what a nil error of a private step helper
+			// (`log, argMap, err := f.resolve(...)`) implies inside that helper
+			lits := p.ExpandLitsKeep(core.Lits(core.Guards(execCall.Block())))
 			for _, role := range []string{"defaultsMerger", "graphBuilder", "resolver"} {
 				rf := c.role("ERRFLOW-E3", role)
 				if rf == nil {
 					continue
 				}
 				ok := false
-				for _, ci := range core.Calls(call) {
+				for _, ci := range p.RegionCalls(call) {
 					if ci.Common().StaticCallee() != rf {
 						continue
 					}
@@ -300,9 +302,22 @@ func runErrflow(c *Ctx) {
 			// the argument map handed to the executor is the resolver's result
 			ok := false
 			for _, a := range execCall.Common().Args {
-				if e, isE := a.(*ssa.Extract); isE {
-					if cl, isC := e.Tuple.(*ssa.Call); isC && cl.Common().StaticCallee() == res {
-						ok = true
+				if _, isMap := a.Type().Underlying().(*types.Map); !isMap {
+					continue
+				}
+				srcs := p.ISources(a)
+				ok = len(srcs) > 0
+				for _, sv := range srcs {
+					if core.IsNilConst(sv) {
+						continue // the error returns of a step helper (never reach the executor: nil branch above)
+					}
+					e, isE := sv.(*ssa.Extract)
+					if !isE {
+						ok = false
+						continue
+					}
+					if cl, isC := e.Tuple.(*ssa.Call); !isC || cl.Common().StaticCallee() != res {
+						ok = false
 					}
 				}
 			}
